@@ -10,7 +10,7 @@ Not decided: the byte values themselves (C01/C16), BufWriter flush-on-drop in wr
 """
 import re
 from engine import op_place, proj_key, AnchorLost
-from common import result_consumed, is_result_ty, fmt_key
+from common import result_consumed, is_result_ty, fmt_key, switch_info, reach_from, ok_assign_blocks
 
 WRITE_ROOTS = ["Package::write", "Package::write_file", "PackageMetadata::write"]
 PARSE_ROOTS = ["Package::parse", "Package::open", "PackageMetadata::parse", "PackageMetadata::open"]
@@ -19,7 +19,7 @@ IO_READ = "std::io::Read"
 SHORT_WRITE = {"std::io::Write::write", "std::io::Write::write_vectored"}
 SHORT_READ = {"std::io::Read::read", "std::io::Read::read_vectored", "std::io::BufRead::fill_buf",
               "std::io::BufRead::consume", "std::io::BufRead::read_until", "std::io::BufRead::read_line",
-              "std::io::Read::read_buf", "std::io::Read::bytes", "std::io::Read::take",
+              "std::io::Read::read_buf", "std::io::Read::bytes",
               "std::io::BufRead::lines", "std::io::BufRead::split", "std::io::Read::read_to_string"}
 EXACT_READ = {"std::io::Read::read_exact", "std::io::Read::read_to_end"}
 
@@ -207,6 +207,29 @@ def run(f, fixture, rep, cfg, tier):
     pnon = {p: b for p, b in pcone.items() if b.impl_trait != IO_READ}
     hits, exact = check_short_calls(f, pnon, rep, "R5", SHORT_READ, "caller-supplied source", exact=EXACT_READ)
     rep.floor("R5", "read_exact/read_to_end sites on the parse cone", exact, 5)
+    # a length-limited read (take + read_to_end) must be followed by a check that the full length arrived
+    for b in pnon.values():
+        for c in b.calls():
+            if c.decl != "std::io::Read::take":
+                continue
+            from terms import TermBuilder, render
+            tb = TermBuilder(b)
+            want = render(tb.term(c.args[1]))
+            guarded = False
+            for bb in b.reachable():
+                info = switch_info(b, bb)
+                if info and info["kind"] == "cmp" and info["stmt"]["rv"]["op"] in ("Ne", "Eq"):
+                    rv = info["stmt"]["rv"]
+                    ts = [render(tb.term(rv["a"])), render(tb.term(rv["b"]))]
+                    core = want.replace("u64(", "").rstrip(")") if want.startswith("u64(") else want
+                    if any("Vec::<T, A>::len" in t for t in ts) and any(core in t for t in ts):
+                        mism = info["true"] if rv["op"] == "Ne" else info["false"]
+                        r = reach_from(b, mism)
+                        if not (r & set(ok_assign_blocks(b))):
+                            guarded = True
+            rep.check(guarded, "R5", "%s|take-length-check" % fmt_key(b.path),
+                      "%s: the take()-limited read is followed by a length check that turns a short input into an error" % b.path,
+                      "%s: a take()-limited read is not followed by a check that all %s bytes arrived - truncated input would be accepted" % (b.path, want), c.loc())
     n = check_results(f, pnon, rep, "R3")
     rep.floor("R3", "Result-producing calls on the parse cone", n, 10)
     readers = [b for b in f.body_list if b.impl_trait == IO_READ and b.name == "read"]
